@@ -125,7 +125,7 @@ fn generate(rng: &mut Rng, index: u64) -> ConnScenario {
         discovery: Script::always(Some(0), DiscRes::Targets(vec![gen_target(rng, 0)])),
         ..Default::default()
     };
-    ConnScenario {
+    let mut sc = ConnScenario {
         seed: rng.next_u64(),
         cfg: ConnCfg { secret: secret_cfg, expiry: Some(expiry), max_frame: None, client_addr },
         wall,
@@ -133,7 +133,9 @@ fn generate(rng: &mut Rng, index: u64) -> ConnScenario {
         client,
         wplan: vec![],
         cap_ns: secs(120),
-    }
+    };
+    zero_time_noise(rng, &mut sc);
+    sc
 }
 
 pub fn check(sc: &ConnScenario, out: &ConnOutcome, rep: &mut RunReport) {
@@ -239,7 +241,7 @@ impl Check for C02 {
         generate(rng, index)
     }
     fn execute(&self, sc: &ConnScenario) -> RunReport {
-        if !conn_domain_ok(sc) || !matches!(sc.client.intent, 2 | 3) || sc.client.script.is_some() || !sc.client.mutations.is_empty() || !matches!(sc.client.enc, crate::client::EncVariant::Honest) {
+        if !conn_domain_ok(sc) || !matches!(sc.client.intent, 2 | 3) || sc.client.script.is_some() || !sc.client.mutations.is_empty() || !matches!(sc.client.enc, crate::client::EncVariant::Honest) || !transport_is_zero_time(sc) {
             return RunReport::default(); // outside this check's domain (shrinking may propose such scenarios)
         }
         let out = run_conn(sc);
